@@ -17,17 +17,19 @@ type plan struct {
 	scenarios []*scenario
 	outcome   func(x *vrt.Exec) string
 	// bounds to try in order: the first that completes under its cap wins
-	bounds []int
-	caps   []int64
-	pre    func(res *shardResult, shard, n int) // sequential leg (C20a)
+	bounds      []int
+	caps        []int64
+	pre         func(res *shardResult, shard, n int) // sequential leg (C20a)
+	shardBudget int64                                // max executions per shard before falling back to bound 1 (0 = none)
 }
 
 func planFor(id string, thorough bool) *plan {
 	switch id {
 	case "C19":
-		p := &plan{scenarios: c19Scenarios(thorough), outcome: regOutcome, bounds: []int{-1, 2}, caps: []int64{30000, 300000}}
+		p := &plan{scenarios: c19Scenarios(thorough), outcome: regOutcome, bounds: []int{-1, 2}, caps: []int64{30000, 300000}, shardBudget: 4000000}
 		if thorough {
 			p.bounds, p.caps = []int{-1, 3, 2}, []int64{200000, 3000000, 2000000}
+			p.shardBudget = 40000000
 		}
 		return p
 	case "C20":
@@ -53,15 +55,25 @@ func runShard(id string, thorough bool, shard, n int) *shardResult {
 		}
 		res.Scenarios++
 		var st *exploreStats
-		for bi, b := range p.bounds {
-			if b < 0 && (strings.HasPrefix(sc.Name, "3x2 ") || strings.HasPrefix(sc.Name, "4x1 ")) {
-				continue // 3 threads x 2 ops: preemption bound 2 directly (the unbounded space is ~10^5..10^6 schedules each)
-			}
-			st = explore(sc, b, p.caps[bi], p.outcome)
+		if res.Execs > p.shardBudget && p.shardBudget > 0 {
+			// execution budget of this shard used up (only happens on changed trees whose code has far more scheduling
+			// points): the remaining scenarios are explored to preemption bound 1 with a small cap, reported as capped
+			st = explore(sc, 1, 3000, p.outcome)
 			res.Execs += st.Execs
 			res.Steps += st.Steps
-			if st.Finding != nil || !st.Capped {
-				break
+			res.Extra["scenarios_explored_after_budget_exhausted"]++
+			st.Capped = true
+		} else {
+			for bi, b := range p.bounds {
+				if b < 0 && (strings.HasPrefix(sc.Name, "3x2 ") || strings.HasPrefix(sc.Name, "4x1 ")) {
+					continue // 3 threads x 2 ops: preemption bound 2 directly (the unbounded space is ~10^5..10^6 schedules each)
+				}
+				st = explore(sc, b, p.caps[bi], p.outcome)
+				res.Execs += st.Execs
+				res.Steps += st.Steps
+				if st.Finding != nil || !st.Capped {
+					break
+				}
 			}
 		}
 		if st.MaxPoints > res.MaxPoints {
